@@ -38,8 +38,11 @@ type Case struct {
 	Back  []int  // tcp: lengths of plain messages the client then writes back
 	// CloseAfterWrite (tcp): right after its last write the client cancels its context and closes the transport, while
 	// the peer is slow to read: everything written still arrives, followed by a clean end of stream
-	CloseAfterWrite bool   `json:",omitempty"`
-	First           []byte // detect: first bytes presented to Detect
+	CloseAfterWrite bool `json:",omitempty"`
+	// QuietMs (tcp): the connection is configured with this read timeout, and the client is quiet for 4/3 of it between
+	// its last read and its first write (a caller that sends a request after an idle period)
+	QuietMs int    `json:",omitempty"`
+	First   []byte // detect: first bytes presented to Detect
 }
 
 func payload(seed uint64, i, n int) []byte { return hx.Det(seed*131+uint64(i)+1, n) }
@@ -286,7 +289,11 @@ func oracleTCP(c Case) (err error) {
 	}()
 	ctx, cancel := context.WithCancel(context.Background())
 	defer cancel()
-	tr, err := transport.NewTransport(stubInf{}, transport.TCPConnConfig{Ctx: ctx, Host: ln.Addr().String(), Timeout: 60 * time.Second}, variant(c.Abridged))
+	timeout := 60 * time.Second
+	if c.QuietMs > 0 {
+		timeout = time.Duration(c.QuietMs) * time.Millisecond
+	}
+	tr, err := transport.NewTransport(stubInf{}, transport.TCPConnConfig{Ctx: ctx, Host: ln.Addr().String(), Timeout: timeout}, variant(c.Abridged))
 	if err != nil {
 		return fmt.Errorf("INFRA: NewTransport: %v", err)
 	}
@@ -299,6 +306,9 @@ func oracleTCP(c Case) (err error) {
 	var kept []messages.Common
 	for i := 0; i < nFull; i++ {
 		m, err := tr.ReadMsg()
+		if err != nil && c.QuietMs > 0 && strings.Contains(err.Error(), "i/o timeout") {
+			return fmt.Errorf("INFRA: the listener was slower than the %d ms read timeout of this case", c.QuietMs)
+		}
 		if err != nil {
 			return fmt.Errorf("message #%d (%d-byte body) not delivered: %v", i, len(exps[i].body), err)
 		}
@@ -343,6 +353,9 @@ func oracleTCP(c Case) (err error) {
 	}
 	// client -> server
 	var wantBack []byte
+	if c.QuietMs > 0 {
+		time.Sleep(time.Duration(c.QuietMs) * time.Millisecond * 4 / 3)
+	}
 	for i, n := range c.Back {
 		body := payload(c.Seed+7, i, n)
 		id := int64(i+1) * 4
@@ -444,11 +457,14 @@ func record(c Case) {
 		if len(c.Back) > 0 {
 			cls = append(cls, "client-writes")
 		}
+		if c.QuietMs > 0 {
+			cls = append(cls, "client-writes-after-quiet-period>timeout")
+		}
 	}
 	if len(c.Lens) >= 2 {
 		nt = true
 	}
-	run.Case(nt, evid.Hash(c.Kind, c.Abridged, fmt.Sprint(c.Lens), c.Seed, fmt.Sprint(c.Code), c.Close, fmt.Sprint(c.Cuts), fmt.Sprint(c.Back), c.First), cls...)
+	run.Case(nt, evid.Hash(c.Kind, c.Abridged, fmt.Sprint(c.Lens), c.Seed, fmt.Sprint(c.Code), c.Close, fmt.Sprint(c.Cuts), fmt.Sprint(c.Back), c.First, c.QuietMs), cls...)
 	if len(c.Cuts) <= 12 {
 		run.Sample(c)
 	}
@@ -503,6 +519,9 @@ func gen(t *rapid.T) Case {
 		nb := rapid.IntRange(0, 3).Draw(t, "nback")
 		for i := 0; i < nb; i++ {
 			c.Back = append(c.Back, genLen(t, "backlen", 4096))
+		}
+		if c.Close == "" && c.Code == nil && nb > 0 && rapid.IntRange(0, 15).Draw(t, "quiet") == 0 {
+			c.QuietMs = 150
 		}
 		if c.Close == "" && rapid.IntRange(0, 7).Draw(t, "closeafterwrite") == 0 {
 			// more than the socket buffers hold, then close at once
@@ -614,6 +633,16 @@ func TestC08(t *testing.T) {
 						t.Fatalf("violation (replay %s): %v", p, err)
 					}
 				}
+			}
+		}
+		// a request sent after the connection was quiet for longer than its read timeout
+		for _, abr := range []bool{false, true} {
+			c := Case{Kind: "tcp", Abridged: abr, Seed: 11, Lens: []int{64}, Back: []int{40, 1 << 16}, QuietMs: 150}
+			record(c)
+			n++
+			if err := oracle(c); err != nil && !strings.HasPrefix(err.Error(), "INFRA:") {
+				p := run.ViolationNamed(fmt.Sprintf("quiet-%v", abr), c, err.Error())
+				t.Fatalf("violation (replay %s): %v", p, err)
 			}
 		}
 		run.Exhaustive("message lengths 0..1024 step 4, both modes", n)
